@@ -83,7 +83,63 @@ def Step (c : Cfg) (s : State) (l : Label) (s' : State) : Prop :=
   | .run t pick => stepThread c s t pick = some s'
   | .spur t => spurious s t = some s'
 
+/-- run a schedule -/
+def runLabels (c : Cfg) : State → List Label → Option State
+  | s, [] => some s
+  | s, .run t pick :: ls => (stepThread c s t pick).bind (runLabels c · ls)
+  | s, .spur t :: ls => (spurious s t).bind (runLabels c · ls)
+
+theorem reach_runLabels {c : Cfg} : ∀ {s s' : State} (ls : List Label), Reach c s → runLabels c s ls = some s' → Reach c s'
+  | s, s', [], h, e => by simp [runLabels] at e; exact e ▸ h
+  | s, s', .run t pick :: ls, h, e => by
+    simp only [runLabels] at e
+    cases hs : stepThread c s t pick with
+    | none => simp [hs] at e
+    | some s1 => rw [hs] at e; exact reach_runLabels ls (Reach.step h hs) e
+  | s, s', .spur t :: ls, h, e => by
+    simp only [runLabels] at e
+    cases hs : spurious s t with
+    | none => simp [hs] at e
+    | some s1 => rw [hs] at e; exact reach_runLabels ls (Reach.spur h hs) e
+
+/-- a state reached by a concrete schedule from disciplined programs that satisfies a (decidable) test -/
+theorem reach_witness {c : Cfg} (progs : List (List Op)) (ls : List Label) (q : State → Bool)
+    (hd : (progs.all fun p => Disc p) = true) (hn : progs.length < 2^15)
+    (h : (runLabels c (init progs) ls).any q = true) : ∃ s, Reach c s ∧ q s = true := by
+  cases hr : runLabels c (init progs) ls with
+  | none => simp [hr] at h
+  | some s =>
+    rw [hr] at h
+    exact ⟨s, reach_runLabels ls (Reach.init progs (by simpa using hd) hn) hr, by simpa using h⟩
+
 /-- thread `t` can make a (non-spurious) step -/
 def Enabled (c : Cfg) (s : State) (t : Tid) : Prop := ∃ pick s', stepThread c s t pick = some s'
+
+/-! ### termination measure -/
+
+/-- 2 while an API call is in progress before its final `p_mutex_unlock`, 1 at that unlock, 0 when done -/
+def PC.major : PC → Nat
+  | .done => 0
+  | .atUnlock _ _ => 1
+  | _ => 2
+
+/-- progress inside one call; only a wake-up (signal / broadcast / spurious) can raise it -/
+def PC.minor : PC → Nat
+  | .lock _ => 4
+  | .woken _ _ | .atSignal _ _ | .atBcast _ _ => 3
+  | .atWait _ _ => 2
+  | .blocked _ _ => 1
+  | _ => 0
+
+def Thread.major (th : Thread) : Nat := 2 * th.prog.length + th.pc.major
+def Thread.minor (th : Thread) : Nat := th.pc.minor
+
+/-- remaining API calls (doubled, plus the calls in progress) of all threads -/
+def major (s : State) : Nat := (s.threads.map Thread.major).sum
+/-- steps the threads can still make inside their current calls without a new wake-up -/
+def minor (s : State) : Nat := (s.threads.map Thread.minor).sum
+
+/-- the lexicographic termination measure -/
+def measure (s : State) : Nat × Nat := (major s, minor s)
 
 end PV.RWLock
